@@ -60,9 +60,8 @@ RunStart == /\ Ev("RunStart")
             /\ UNCHANGED fibs /\ l' = l + 1                    \* fibers of earlier runs may be resumed later
 
 RunEnd == /\ Ev("RunEnd")
-          /\ phase \in {"run", "dead"}
           /\ (E.ok = 1) => (phase = "run" /\ cur # 0 /\ Me.nf = 0 /\ Me.hs = <<>>)
-          /\ (E.ok = 0) => phase = "dead"
+          /\ (E.ok = 0) => phase \in {"dead", "idle"}             \* idle: the snippet did not compile, no run started
           /\ phase' = "idle" /\ cur' = 0 /\ l' = l + 1
           /\ UNCHANGED <<fibs, hx, depth, imports>>
 
